@@ -116,7 +116,7 @@ def run(ctx):
     ok = bool(filt) and any('not SchedulerConfig.match_item_keys(item.name, self.disable)' in ast.unparse(n) for n in filt)
     (ctx.judge('R1', 'create_dependency_items:disable-filter') if ok else
      ctx.violation('R1', 'create_dependency_items:disable-filter', cdi.where, 'disabled dependencies are not filtered out'))
-    ok = 'ignore = [*self.disable, *self.block]' in src and 'ignore=ignore' in src
+    ok = X.has(src, 'ignore = [*self.disable, *self.block]') and X.has(src, 'ignore=ignore')
     (ctx.judge('R1', 'create_dependency_items:ignore-list') if ok else
      ctx.violation('R1', 'create_dependency_items:ignore-list', cdi.where, 'disable+block list is no longer handed to create_from_ir'))
 
@@ -179,7 +179,7 @@ def run(ctx):
     fi = [n for n in ast.walk(d.node) if isinstance(n, ast.ListComp) and 'isinstance(file_item, FileItem)' in ast.unparse(n)]
     (ctx.judge('R3', '_discover:all-file-items') if fi and 'item_cache.values()' in ast.unparse(fi[0]) else
      ctx.violation('R3', '_discover:all-file-items', d.where, 'definition discovery does not iterate over all cached FileItems'))
-    if 'list(set(' in src:
+    if X.has(src, 'list(set('):
         ctx.note('_discover enumerates files through a set(): order depends on the hash seed (matters only for duplicate '
                  'definitions, which the property excludes)')
     sfx = S.members.get('source_suffixes')
@@ -236,7 +236,7 @@ def run(ctx):
         if kw.get('use_pattern_matching') != 'True':
             ok = False
             why.append(f'`{ast.unparse(c)[:90]}` lacks use_pattern_matching=True')
-    keys_ok = 'config.disable' in src and 'ignore' in src
+    keys_ok = X.has(src, 'config.disable') and X.has(src, 'ignore')
     if ok and keys_ok:
         ctx.judge('R5', 'ItemFactory._is_ignored', facts={'calls': [ast.unparse(c) for c in calls]})
     else:
